@@ -48,6 +48,10 @@ CHECKS = {
          "Runtime monitor over generated histories: C03 and C04 histories (so that the logical stored length can exceed what is on disk) with the C08 read matrix interleaved; the access tap (hook H8) reports every byte range dereferenced through the memory map or read from the data file and each must lie inside one of the vector's own regions and below that region's current length.",
          "Only call sites instrumented by hook H8 are observed. Known finding KF-C20-1 (stored-only views of a raw vector between the rollback of a truncating commit and the next write) is excluded by construction and counted.",
          "property-based testing with an instrumented access monitor as oracle (proptest)", "DESIGN.md §4 C20"),
+ "C17": ("E7-codec", "exploration",
+         "Differential property test of every on-disk decoder against an independent reference decoder written from the format: region metadata slots, vector headers, page-index entries, 30 value encodings, raw and base change records; valid encodings at and around the limits plus truncations, bit flips, boundary values in the length/count words, extensions and arbitrary bytes. The library must accept/refuse exactly as the reference does, decode the same fields, never panic and never request an allocation beyond 2x input + 512 bytes (counting allocator). Through the API: regions files with invalidated slots must open, skip exactly those slots and load the others unchanged.",
+         "Trusts the reference decoders (the formats and validity rules as the property states them) and hook H9's public wrappers over the private decoders. Proptest only: the libFuzzer campaign sketched in the design is not built.",
+         "differential property testing (reference decoder) with structured mutation of valid encodings (proptest)", "DESIGN.md §4 C17"),
 }
 WIP = "not claimed: the generated-input check designed in DESIGN.md §4 was not built within the time available (the technique applies; nothing is asserted about this property)"
 
@@ -73,6 +77,7 @@ for p in props:
 
 ENGINES = [
  {"name": "E3-vecmodel", "path": "harness/src/vecmodel", "serves_properties": ["C03", "C04", "C07", "C08", "C13", "C14", "C16", "C20"], "kind_free_text": "vector op language + Vec<Option<T>> reference model + snapshot tree for rollback, generic over the format x element-type matrix"},
+ {"name": "E7-codec", "path": "harness/src/props/c17.rs", "serves_properties": ["C17"], "kind_free_text": "encoders/decoders driven directly (hook H9) and through Database::open; reference decoders, mutation operators, counting global allocator"},
  {"name": "E1-rawmodel", "path": "harness/src/rawmodel", "serves_properties": ["C01", "C02", "C13", "C05", "C12", "C10"], "kind_free_text": "rawdb op language + byte-vector reference model + extent invariants, driven by proptest"},
 ]
 manifest = {
